@@ -67,10 +67,12 @@ def hist_run(ctx, cfgs, n, extra=(), shards=2, zero_d=False):
 
 def c04(ctx, spec):
     hist_run(ctx, [(1, 1, 0), (1, 2, 0), (1, 3, 0), (1, 4, 0), (0, 2, 0), (0, 3, 0), (2, 1, 0), (2, 2, 0)], T(ctx, 10000, 200000), zero_d=True)
+    # the same histories over three unequal instances of a stateful, non-propagating allocator: moves between unequal allocators move the elements and still leave the source empty
+    for (t, d, tr) in [(1, 2, 0), (2, 1, 0)]: ctx.run_sharded('hist_t%d_d%d_tr%d' % (t, d, tr), T(ctx, 5000, 100000), args=['--prop', ctx.pid, '--maxext', 3, '--steps', T(ctx, 12, 40), '--vary-alloc'], shards=2, label='hist_t%d_d%d_tr%d(vary-alloc)' % (t, d, tr))
 def c06(ctx, spec):
-    hist_run(ctx, [(1, 1, 0), (1, 2, 0), (1, 3, 0), (1, 4, 0), (0, 1, 0), (0, 2, 0), (2, 2, 0), (2, 3, 0)], T(ctx, 10000, 200000))
+    hist_run(ctx, [(1, 1, 0), (1, 2, 0), (1, 3, 0), (1, 4, 0), (0, 1, 0), (0, 2, 0), (2, 2, 0), (2, 3, 0), (3, 1, 0), (3, 2, 0)], T(ctx, 10000, 200000))
 def c08(ctx, spec):
-    hist_run(ctx, [(1, 1, 0), (1, 2, 0), (1, 3, 0), (1, 4, 0), (0, 1, 0), (0, 2, 0), (0, 3, 0), (2, 2, 0)], T(ctx, 10000, 200000), zero_d=True)
+    hist_run(ctx, [(1, 1, 0), (1, 2, 0), (1, 3, 0), (1, 4, 0), (0, 1, 0), (0, 2, 0), (0, 3, 0), (2, 2, 0), (3, 2, 0)], T(ctx, 10000, 200000), zero_d=True)
 def c10(ctx, spec):
     cfgs = [(1, 2, tr) for tr in range(16)] + [(1, 1, 0), (1, 1, 7), (1, 3, 0), (1, 3, 7)]
     hist_run(ctx, cfgs, T(ctx, 5000, 100000), extra=['--vary-alloc'], shards=1 if ctx.tier == 'quick' else 2)
